@@ -403,13 +403,18 @@ def gen_schedule(rng: random.Random, tier: str):
     return Case(line, {"procs": procs, "steps": steps, "flav": flav}, kind, len(steps) >= 10)
 
 
-def sched_line(procs, steps, flav):
+def sched_line(procs, steps, flav, fns=None):
     """`sched n procs… k steps… m flavours…` — the flavours (how child i adopts the lock: run wrapper,
     inherited globals + run wrapper, import-time) are one and the same model step; they are part of
     the line so that a replay is self-contained"""
     fl = [flav[k] for k in sorted(flav, key=int)]
-    return (f"sched {len(procs)} {' '.join(map(str, procs))} {len(steps)} {' '.join(steps)} "
+    line = (f"sched {len(procs)} {' '.join(map(str, procs))} {len(steps)} {' '.join(steps)} "
             f"{len(fl)} {' '.join(fl)}").rstrip()
+    if fns and any(k != "p" for k in fns):
+        # which synchronized function each thread calls at top level: p = probe, i / w / f = a real
+        # UrwidImageScreen's get_available_raw_input / write / flush
+        line += f" {len(fns)} {' '.join(fns)}"
+    return line
 
 
 def parse_steps(steps):
@@ -425,13 +430,14 @@ def parse_steps(steps):
     return out
 
 
+ONLINE_SCENARIOS = ("two-first-starts", "raising-bodies", "mix", "urwid-after-start", "late-import-then-start")
 ONLINE_QUICK = 300
 ONLINE_THOROUGH = 1200
-DECO_QUICK = 100
+DECO_QUICK = 60
 DECO_THOROUGH = 1500
-FSCHED_QUICK = 120
+FSCHED_QUICK = 80
 FSCHED_THOROUGH = 800
-MP_QUICK = [("spawn", "ctx", 0), ("spawn", "default", 1), ("fork", "default", 0)]
+MP_QUICK = [("spawn", "ctx", 0), ("spawn", "default", 1)]
 MP_ALL = [(m, h, lz) for m in ("fork", "spawn", "forkserver") for h in ("default", "ctx") for lz in (0, 1)] + [("mixed", "ctx", 0), ("mixed", "ctx", 1)]
 
 
@@ -448,7 +454,7 @@ class C14(Property):
         "Process.start() is not called from inside a synchronized call (documented as unsupported)",
         "a child process runs no synchronized call before its Process.run() / its import of term_image.utils",
     ]
-    quick_cases = 1500
+    quick_cases = 900
     thorough_cases = 6000
     rule = ("a case is one forced schedule (threads x actions) generated from the PRNG state derived from VERIF_SEED by "
             "simulating the enabled steps; non-trivial = at least 10 steps; distinct by the hash of the request line")
@@ -459,6 +465,8 @@ class C14(Property):
         self._viol = {}
         self._mp = {}
         self._hangs = 0
+        self._times = {}
+        self._t_start = time.time()
 
     # -- worker -------------------------------------------------------------------------
     def worker(self):
@@ -487,6 +495,8 @@ class C14(Property):
             f"def childAdoption : List String := {lean_list(f['childAdoption'])}\n"
             f"def lockTtyUsers : List String := {lean_list(f['lockTtyUsers'])}\n"
             f"def ttyLockSites : List String := {lean_list(f['ttyLockSites'])}\n"
+            f"def moduleInitOrder : List String := {lean_list(f['moduleInitOrder'])}\n"
+            f"def lockAliases : List String := {lean_list(f['lockAliases'])}\n"
             "end TIV.C14.Generated\n"
         )
         return {"TIV/C14/Generated.lean": body}
@@ -516,7 +526,7 @@ class C14(Property):
         # decorate-call-drop histories of short-lived callables
         no = ONLINE_QUICK if tier == "quick" else ONLINE_THOROUGH
         for k in range(no):
-            c = self.gen_online(rng, ("two-first-starts", "raising-bodies", "mix")[k % 3])
+            c = self.gen_online(rng, ONLINE_SCENARIOS[k % 5])
             if c is not None:
                 yield c
         for _ in range(DECO_QUICK if tier == "quick" else DECO_THOROUGH):
@@ -526,27 +536,48 @@ class C14(Property):
 
     def gen_online(self, rng, scen):
         nproc = rng.choice([1, 2, 2])
+        fns = None
+        force_flav = {}
         if scen == "two-first-starts":
             # threads 0 and 1 of the root issue the FIRST two Process.start() concurrently
             nproc = 2
             procs = [0, 0, 1, 2] + [rng.randrange(3) for _ in range(rng.choice([0, 0, 1]))]
             cfg = {"first": {"0": 1, "1": 2}, "nproc": 2, "p_exc": 0.05}
+        elif scen == "urwid-after-start":
+            # a real UrwidImageScreen (input poll / write / flush) next to other synchronized calls,
+            # in a process whose lock gets re-bound by a Process.start()
+            nproc = 1
+            procs = [0, 0, 0, 1] + [rng.randrange(2) for _ in range(rng.choice([0, 1]))]
+            cfg = {"first": {"0": 1}, "nproc": 1, "p_exc": 0.05, "p_start": 0.0}
+            fns = ["p", rng.choice(["i", "i", "w", "f"]), rng.choice(["p", "i", "w"]), rng.choice(["p", "i"])]
+            fns += ["p"] * (len(procs) - len(fns))
+        elif scen == "late-import-then-start":
+            # child 1 adopts the lock at import time (late import) and then starts process 2 itself
+            nproc = 2
+            procs = [0, 0, 1, 1, 2]
+            cfg = {"first": {"0": 1, "2": 2}, "nproc": 2, "p_exc": 0.05, "p_start": 0.0}
+            force_flav = {"1": "import"}
         else:
             n = rng.choice([2, 3, 4])
             procs = [0, 0] + [rng.randrange(nproc + 1) for _ in range(n - 2)]
             cfg = {"nproc": nproc, "p_exc": 0.4 if scen == "raising-bodies" else 0.1,
                    "p_start": rng.choice([0.05, 0.2]), "maxdepth": rng.choice([1, 2, 3])}
+            if scen == "mix" and rng.random() < 0.5:
+                fns = [rng.choice(["p", "p", "i", "w", "f"]) for _ in procs]
         flav = {str(c): rng.choice(["run", "import", "fork"]) for c in range(1, nproc + 1)}
+        flav.update(force_flav)
         r = self.worker().call({"op": "sgen", "procs": procs, "flav": flav, "seed": rng.randrange(1 << 30),
-                                "cfg": cfg, "maxsteps": rng.choice([40, 80, 120])})
+                                "cfg": cfg, "maxsteps": rng.choice([40, 80, 120]), "fns": fns})
         if r.get("hang"):
             self._hangs += 1
             self._worker = None
             return None
         if "error" in r:
             raise RuntimeError(r["error"])
-        return Case(sched_line(procs, r["steps"], flav), {"procs": procs, "steps": r["steps"], "flav": flav},
-                    "online-" + scen, len(r["steps"]) >= 10)
+        data = {"procs": procs, "steps": r["steps"], "flav": flav}
+        if fns:
+            data["fns"] = fns
+        return Case(sched_line(procs, r["steps"], flav, fns), data, "online-" + scen, len(r["steps"]) >= 10)
 
     def gen_deco(self, rng):
         ops = []
@@ -574,6 +605,14 @@ class C14(Property):
 
     # -- implementation -----------------------------------------------------------------
     def impl(self, case: Case) -> str:
+        t0 = time.time()
+        try:
+            return self._impl(case)
+        finally:
+            k = case.kind.split("-")[0] + ("-" + case.kind.split("-")[1] if case.kind.startswith(("real", "online")) else "")
+            self._times[k] = round(self._times.get(k, 0.0) + time.time() - t0, 2)
+
+    def _impl(self, case: Case) -> str:
         d = case.data
         if self._hangs >= 3:
             raise TimeoutError("3 schedules hung already; not trying further ones")
@@ -593,7 +632,7 @@ class C14(Property):
                                     "progs": d["progs"]})
         else:
             r = self.worker().call({"op": "sched", "procs": d["procs"], "steps": parse_steps(d["steps"]),
-                                    "flav": d.get("flav", {})})
+                                    "flav": d.get("flav", {}), "fns": d.get("fns")})
         if r.get("hang"):
             self._hangs += 1
             self._worker = None
@@ -667,6 +706,8 @@ class C14(Property):
             f"{j['method']}/{j['how']}/{'lazy' if j['lazy'] else 'eager'}": {k: j[k] for k in ("intervals", "overlaps", "processes", "nested", "lock_type")}
             for j in self._mp.values()}
         ev["coverage"]["worker_facts"] = self._facts
+        ev["coverage"]["impl_seconds_by_kind"] = self._times
+        ev["coverage"]["seconds_until_oracle_phase"] = round(time.time() - self._t_start, 2)
         if self._worker:
             self._worker.close()
         return []
@@ -676,7 +717,7 @@ class C14(Property):
         then more probe schedules"""
         fails = []
         for k in range(600):
-            c = self.gen_online(rng, ("two-first-starts", "raising-bodies", "mix")[k % 3]) if k % 4 else self.gen_deco(rng)
+            c = self.gen_online(rng, ONLINE_SCENARIOS[k % 5]) if k % 4 else self.gen_deco(rng)
             if c is None:
                 continue
             f = self.oracle(c, self.impl(c))
